@@ -21,7 +21,7 @@ fn equivalence(tier: Tier, st: &mut Stats) {
         vec![row("あ", 1, 1, 3, "user-hira"), row("a b", 1, 1, 2, "user-with-space"), row("ab", 1, 1, 0, "\"q,r\",s")],
         // the file starts with a half-width form; rows starting with '#', a zero-width no-break
         // space (not at the start of the file, where it would be a byte-order mark) and a blank
-        vec![row("\u{FF71}b", 1, 1, 4, "user-halfwidth-first"), row("#", 1, 1, 7, "user-hash "), row("\u{FEFF}a", 1, 1, 9, "user-zwnbsp"), row(" a", 1, 1, 5, "")],
+        vec![row("\u{FF71}b", 1, 1, 4, "user-halfwidth-first"), row("#", 1, 1, 7, "user-hash "), row("\u{FEFF}a", 1, 1, 9, "user-zwnbsp"), row(" a", 1, 1, 5, ""), row("ab", 1, 1, 3, "\"q\r\nr\",crlf-inside-quotes")],
     ];
     let mut tasks = vec![];
     for (ui, _) in us.iter().enumerate() {
